@@ -415,7 +415,7 @@ def r10f(chk, rid='R10.f'):
 
 
 def r10g(chk, rid='R10.g'):
-    chk.rule(rid, 'variables block, decided by evaluation: CSSVariablesDeclaration.setVariable and removeVariable (with the helpers they call) are evaluated on their syntax trees over a model block whose item list keeps literal names as written - escaped (wid\\th), upper case (HEIGHT), plain - next to comments: after every call, under any spelling of the name, the item list and the name map list exactly the same variables once each with the same values; an update replaces the one item of the name in place, a removal deletes it and returns the old text')
+    chk.rule(rid, 'variables block, decided by evaluation: CSSVariablesDeclaration.setVariable and removeVariable (with the helpers they call) are evaluated on their syntax trees over a model block whose item list keeps literal names as written - escaped (wid\\th), upper case (HEIGHT), plain - next to comments, two of them holding one and the same value object: after every call, under any spelling of the name, the item list and the name map list exactly the same variables once each with the same values; an update replaces the one item of the name in place, a removal deletes it and returns the old text')
     chk.assume("R10.g: helper.normalize is modelled as 'remove a backslash before a non-hex character, then lower-case'; the production parse of the variable name as an identifier test")
     import re as _re
 
@@ -442,11 +442,12 @@ def r10g(chk, rid='R10.g'):
     def block():
         sq = SeqM()
         vars_ = {}
-        for lit, val in (('wid\\th', '1px'), (None, '/*c*/'), ('HEIGHT', '2px'), ('c', '3')):
+        shared = PV(cssText='3')  # one value object set for two names (setVariable accepts value objects)
+        for lit, val in (('wid\\th', '1px'), (None, '/*c*/'), ('HEIGHT', '2px'), ('c', shared), ('d', shared)):
             if lit is None:
                 list.append(sq, Record(value=Record(cssText=val), type='COMMENT', line=1, col=1))
             else:
-                pv = PV(cssText=val)
+                pv = val if isinstance(val, PV) else PV(cssText=val)
                 list.append(sq, Record(value=[lit, pv], type='var', line=1, col=1))
                 vars_[norm(lit)] = pv
         return sq, vars_
@@ -470,7 +471,7 @@ def r10g(chk, rid='R10.g'):
         mapped = sorted((k, v.cssText) for k, v in me._vars.items())
         if got != want or mapped != sorted(want) or sq._readonly is not True:
             bad.append(f'setVariable({name!r}, "9"): items {got}, name map {mapped}; prescribed {want} in both')
-    for name in ('width', 'WIDTH', 'wid\\th', 'height', 'HEIGHT', 'c', 'absent'):
+    for name in ('width', 'WIDTH', 'wid\\th', 'height', 'HEIGHT', 'c', 'd', 'absent'):
         sq, vars_ = block()
         me = Record(seq=sq, _vars=vars_, _checkReadonly=lambda: None, _log=Record(error=lambda *a, **k: None))
         res = Evaluator(m.get('CSSVariablesDeclaration.removeVariable'), intrinsics={**intr, 'self._log.error': me._log.error}, model_types=(SeqM,), module=m, cls='CSSVariablesDeclaration').run(self=me, variableName=name)
@@ -515,20 +516,34 @@ def _eval_set_property(chk, rid, m):
             Record.__init__(self, literalname=name, name=(name or '').lower(), priority=priority, parent=parent, wellformed=k.pop('wellformed', True),
                             propertyValue=Record(cssText=value), tag=k.pop('tag', 'NEW'), **k)
 
-    class SeqM(list):
-        _readonly = True
+    from sa.absint import SourceBacked
 
-        def append(self, val, typ=None, *a, **k):
-            list.append(self, Record(value=val, type=typ))
+    from .c04 import bound_method
+    from .c16b import seq_model
+
+    SeqM = SourceBacked
 
     def block():
-        sq = SeqM()
+        # the item list is util.Seq, evaluated from the source
+        sq = seq_model(chk.repo)
         for tag, lit, val, prio in ((1, 'a', '1', 'important'), (2, 'A', '2', ''), (None, None, None, None), (3, 'b', '3', ''), (4, 'a', '4', '')):
             if tag is None:
-                list.append(sq, Record(value=Record(cssText='/*c*/'), type='COMMENT'))
+                sq.append(Record(cssText='/*c*/'), 'COMMENT')
             else:
-                list.append(sq, Record(value=PropM(lit, val, prio, tag=tag), type='Property'))
+                sq.append(PropM(lit, val, prio, tag=tag), 'Property')
+        sq._readonly = True
         return sq
+
+    class Me(Record):
+        @property
+        def seq(self):
+            return self._seq
+
+    def receiver(sq, removed):
+        me = Me(_seq=sq, _checkReadonly=lambda: None, _normalize=lambda x: x.lower(), _log=Record(warn=lambda *a, **k: None), removeProperty=lambda nm, normalize=True: removed.append(nm))
+        me._tempSeq = bound_method(chk.repo, 'cssutils/util.py', '_NewBase._tempSeq', me, {'Seq': lambda readonly=True: seq_model(chk.repo, readonly)})
+        me._setSeq = bound_method(chk.repo, 'cssutils/util.py', '_NewBase._setSeq', me)
+        return me
 
     def view(sq):
         return [(it.value.tag, getattr(it.value.propertyValue, 'cssText', it.value.propertyValue), it.value.priority) for it in sq if isinstance(it.value, PropM)]
@@ -538,7 +553,7 @@ def _eval_set_property(chk, rid, m):
     for name, normalize, replace, prio in ((x, nz, rp_, pr) for x in ('a', 'A', 'b', 'new') for nz in (True, False) for rp_ in (True, False) for pr in ('', 'important')):
         sq = block()
         removed = []
-        me = Record(seq=sq, _checkReadonly=lambda: None, _normalize=lambda x: x.lower(), _log=Record(warn=lambda *a, **k: None), removeProperty=lambda nm, normalize=True: removed.append(nm))
+        me = receiver(sq, removed)
         res = Evaluator(sp, intrinsics={'Property': PropM, 'self._log.warn': me._log.warn}, model_types=(SeqM,), module=m, cls='CSSStyleDeclaration').run(self=me, name=name, value='9', priority=prio, normalize=normalize, replace=replace)
         n += 1
         before = view(block())
@@ -556,16 +571,16 @@ def _eval_set_property(chk, rid, m):
             want = [(t[0], '9', prio) if t == target else t for t in before]
         else:
             want = before + [('NEW', '9', prio)]
-        got = view(sq) if not isinstance(res, Raised) else repr(res)
-        if got != want or sq._readonly is not True:
+        got = view(me._seq) if not isinstance(res, Raised) else repr(res)
+        if got != want or me._seq._readonly is not True:
             bad.append(f'setProperty({name!r}, "9", {prio!r}, normalize={normalize}, replace={replace}): {got}, prescribed {want}')
     for empty in ('', None):
         sq = block()
         removed = []
-        me = Record(seq=sq, _checkReadonly=lambda: None, _normalize=lambda x: x.lower(), _log=Record(warn=lambda *a, **k: None), removeProperty=lambda nm, normalize=True: removed.append(nm))
+        me = receiver(sq, removed)
         Evaluator(sp, intrinsics={'Property': PropM}, model_types=(SeqM,), module=m, cls='CSSStyleDeclaration').run(self=me, name='a', value=empty)
         n += 1
-        if removed != ['a'] or view(sq) != view(block()):
+        if removed != ['a'] or view(me._seq) != view(block()):
             bad.append(f'setProperty("a", {empty!r}) must remove the property: removeProperty calls {removed}')
     chk.extra['set_property_cases'] = n
     chk.ob(rid, DECL, 'CSSStyleDeclaration.setProperty', f'all {n} cases: an update hits the effective entry of the name (the last !important one, else the last; by literal name without normalising), otherwise - or with replace=False - a new entry is appended; an empty value removes (by evaluation)', not bad, f'{len(bad)} differ, e.g. ' + ' | '.join(bad[:2]))
